@@ -29,8 +29,7 @@ RULE = ("cases: (graph, data sizes, n form, seed).  distinct = distinct canonica
 ASSUMPTIONS = ["stand-in backend behind the rpy2 interface (no R in the sandbox)"]
 EXHAUSTIVE = {"quick": False, "thorough": False}
 SOFT_LIMIT = {"quick": 240, "thorough": 1500}
-REQUIRED_FUNCS = ["sempler/semi.py:DRFNet.__init__", "sempler/semi.py:DRFNet.sample", "sempler/semi.py:BayesianNetwork.sample",
-                  "sempler/semi.py:_bootstrap", "drf/code.py:drf.fit", "drf/code.py:drf.predict"]
+REQUIRED_FUNCS = ["sempler/semi.py:DRFNet.__init__", "sempler/semi.py:DRFNet.sample"]      # the backend side is observed through the stand-in's own fit / query log
 REQUIRED_COUNTERS = {"quick": {"sample-calls": 600, "queries-checked": 1000, "fits-checked": 500, "independence-asserted": 100, "forest-draws-independence-asserted": 300, "bootstrap:rows-judged": 500,
                                "repro:seeded-pairs": 200, "repro:seed0": 20, "errors:raised-as-documented": 400, "n:list": 50, "n:int": 50, "n:None": 50},
                      "thorough": {"sample-calls": 3000, "queries-checked": 6000, "fits-checked": 3000, "independence-asserted": 500, "forest-draws-independence-asserted": 1500, "bootstrap:rows-judged": 3000,
